@@ -59,14 +59,14 @@ def gen_inputs(tier, rng):
             inputs.append(('Paragraph', [''.join(tup)]))
     # all 2-splits (and all 3-splits of the shorter ones) of the short strings over the FULL small alphabet — a later
     # piece ending in a newline after an earlier tab / line break is a shape of its own
-    L2 = 3 if tier == "quick" else 5
+    L2 = 4 if tier == "quick" else 5
     k = 0
     for n in range(1, L2 + 1):
         for tup in itertools.product(' a\t\n', repeat=n):
             s = ''.join(tup)
             for cut in range(0, n + 1):
                 inputs.append((('Paragraph', 'Span', 'Header')[k % 3], [s[:cut], s[cut:]])); k += 1
-            if n <= (3 if tier == "quick" else 4):
+            if n <= (4 if tier == "quick" else 5):
                 for c1 in range(0, n + 1):
                     for c2 in range(c1, n + 1):
                         inputs.append((('Paragraph', 'Span', 'Header')[k % 3], [s[:c1], s[c1:c2], s[c2:]])); k += 1
@@ -155,7 +155,7 @@ def run(tier, seed, replay=None):
                       "modelled in WS.v: Paragraph._expand_spaces/_merge_spaces/_sub_merge_spaces/_replace_tabs_lb/append_plain_text, Element.__append for strings, inner_text of text:s/tab/line-break"],
         evaluations=len(cases), distinct_nontrivial=distinct,
         rule="all strings over {space,a,tab,newline} up to length %d as one piece; all 2-splits (3-splits of the shorter ones) of all strings over {space,a,tab,newline} up to length %d; random strings over 12 symbols (XML-special, non-ASCII, NBSP) cut into 1-4 appends, on Paragraph/Span/Header, the first piece through the constructor or through append or append_plain_text; corpus first. non-trivial = contains white space; distinct = distinct (class, pieces)"
-             % ((4, 3) if tier == "quick" else (6, 5)),
+             % ((4, 4) if tier == "quick" else (6, 5)),
         samples=[dict(cls=c, pieces=p, mode=m) for c, p, m in inputs[nexh + len(corpus):][:3]], modes=modes, classes=hist,
         exhaustive_prefix_cases=nexh, corpus_cases=len(corpus),
         fidelity_divergences=sum(1 for c in bad.values() if c == 4), implementation_exceptions=len(impl_errors),
